@@ -372,10 +372,22 @@ func cmdCheck(args []string) int {
 		if j.QueryMs > 0 {
 			jc.QueryTimeoutMs = j.QueryMs
 		}
+		jc.StopAfterViolation = 90 * time.Second
+		if tier == "thorough" {
+			jc.StopAfterViolation = 10 * time.Minute
+		}
 		jc.ReverseMaps = j.ReverseMaps
 		jc.MaxPaths = j.MaxPaths
 		if ts := envInt("SYMGO_TIMEOUT_S", 0); ts > 0 {
 			j.TimeoutS = int(ts)
+		}
+		if j.TimeoutS == 0 {
+			// default time budget per job: far above any job's normal time, so that a tree on which a job
+			// explodes ends as "incomplete" (exit 2) instead of running for hours
+			j.TimeoutS = 1500
+			if tier == "thorough" {
+				j.TimeoutS = 3 * 3600
+			}
 		}
 		if j.TimeoutS > 0 {
 			jc.Deadline = time.Now().Add(time.Duration(j.TimeoutS) * time.Second)
